@@ -409,6 +409,11 @@ def execute(scn, L):
                 out.probe('restart_without_rewind_refused')
             except (RuntimeError, StopIteration):
                 pass
+            except Exception as e:
+                out.violate('C10.other-exception', 'restart:%s:%s' % (
+                    ids[j], type(e).__name__),
+                    {'ids': ids, 'restart_at': j,
+                     'exc': exc_summary(e, L)})
         elif scn.get('dom_hook'):
             # the same legal sequence through the object-model loader with
             # the documented reader_cls hook set to a DiffXReader subclass
